@@ -80,7 +80,7 @@ Qed.
 Lemma queues_ok_step cf st e : queues_ok st -> queues_ok (fst (step cf st e)).
 Proof.
   intros Hq. unfold step. destruct (negb (wf_event st e)); [exact Hq|].
-  destruct e as [fds|c m|c|d|c s n al rp dq|c s n|c s rl|c|c|c]; cbn [fst]; try exact Hq.
+  destruct e as [fds|c m|c|d|c s n al rp dq|c s n|c s rl|c|c|c s|c]; cbn [fst]; try exact Hq.
   - destruct (dispatch cf st c m) as [st' o] eqn:D. destruct (dispatch_frame _ _ _ _ _ _ D) as (_ & _ & E & _). cbn [fst].
     unfold queues_ok. rewrite E. exact Hq.
   - unfold disconnect. destruct (expire_pass cf (st_now st) (drop_pending (st_pend st) c)) as [pl oo]. cbn [fst]. intros n q H. eapply names_drop_nonempty; eauto.
@@ -192,7 +192,7 @@ Proof.
   intros (K & L & Q). split; [|split; [|apply queues_ok_step; exact Q]].
   - (* held_dest *)
     unfold step. destruct (negb (wf_event st e)); [exact K|].
-    destruct e as [fds|c m|c|d|c s n al rp dq|c s n|c s rl|c|c|c]; cbn [fst]; try exact K.
+    destruct e as [fds|c m|c|d|c s n al rp dq|c s n|c s rl|c|c|c s|c]; cbn [fst]; try exact K.
     + unfold dispatch. destruct (resolve st (m_dest m)) as [r|].
       * destruct (deliver_frame cf st c r m) as [_ F]. unfold held_dest. rewrite F. exact K.
       * unfold no_owner. destruct (m_dest m) as [u|n] eqn:Ed; [exact K|]. destruct (negb (m_noauto m) && activatable n); [|exact K].
@@ -212,7 +212,7 @@ Proof.
     + destruct (release (st_names st) c n). exact K.
   - (* held_unowned *)
     unfold step. destruct (negb (wf_event st e)); [exact L|].
-    destruct e as [fds|c m|c|d|c s n al rp dq|c s n|c s rl|c|c|c]; cbn [fst]; try exact L.
+    destruct e as [fds|c m|c|d|c s n al rp dq|c s n|c s rl|c|c|c s|c]; cbn [fst]; try exact L.
     + unfold dispatch. destruct (resolve st (m_dest m)) as [r|] eqn:R.
       * destruct (deliver_frame cf st c r m) as [(_ & _ & Fn & _) F]. unfold held_unowned. rewrite F, Fn. exact L.
       * unfold no_owner. destruct (m_dest m) as [u|n] eqn:Ed; [exact L|]. destruct (negb (m_noauto m) && activatable n); [|exact L].
@@ -272,6 +272,15 @@ Proof.
   induction l as [|x l IH]; simpl; [constructor|]. destruct (g x); simpl; destruct (f x); try constructor; auto.
 Qed.
 
+Lemma arrivals_drv cf st c s code a d b : arrivals_in ([(c, ODrv s code)] ++ drv_copies cf st c s) a d b = [].
+Proof.
+  rewrite arrivals_in_app. simpl. unfold arrivals_in.
+  assert (G : forall l, (forall x, In x l -> snd x = OCall c s) ->
+    flat_map (fun x => match snd x with OFwd f m0 => if (fst x =? b) && (f =? a) && dest_eqb (m_dest m0) d then [m0] else [] | _ => [] end) l = []).
+  { induction l as [|x l IH]; simpl; auto. intros H. rewrite (H x (or_introl eq_refl)). simpl. apply IH. intros; apply H; auto. }
+  apply G. intros x Hx. eapply drv_copies_in; eauto.
+Qed.
+
 Theorem fifo_held_inv cf h a d b :
   Sub (arrived (trace_of cf h) a d b ++ held_msgs (state_of cf h) a d) (written (trace_of cf h) a d).
 Proof.
@@ -285,7 +294,7 @@ Proof.
                   Sub (arrived tr a d b ++ arrivals_in o a d b ++ held_msgs st' a d) (written tr a d ++ wrote e a d)).
   { intros st' o Ha Hs. rewrite Ha. simpl. apply Sub_app_r. eapply Sub_trans; [|exact IH]. apply Sub_app; [apply Sub_refl|exact Hs]. }
   unfold step. destruct (negb (wf_event st e)) eqn:W; [apply Quiet; [reflexivity|apply Sub_refl]|].
-  destruct e as [fds|c m|c|dd|c s n al rp dq|c s n|c s rl|c|c|c]; cbn [fst snd]; try (apply Quiet; [reflexivity|apply Sub_refl]).
+  destruct e as [fds|c m|c|dd|c s n al rp dq|c s n|c s rl|c|c|c s|c]; cbn [fst snd]; try (apply Quiet; [first [reflexivity|apply arrivals_drv]|apply Sub_refl]).
   - (* send *)
     unfold dispatch. destruct (resolve st (m_dest m)) as [r|] eqn:R.
     + pose proof (deliver_arrivals cf st c r m a d b) as D. destruct (deliver_frame cf st c r m) as [_ F].
@@ -316,7 +325,7 @@ Proof.
   - unfold tick. rewrite expire_pass_spec. cbn [fst snd]. apply Quiet; [apply arrivals_noreply|apply Sub_refl].
   - (* RequestName: release of what was held for n *)
     destruct (acquire _ c al rp dq) as [q' code]. set (st1 := set_names st (set_queue (st_names st) n q')).
-    assert (Adrv : forall o, arrivals_in (o ++ [(c, ODrv s code)]) a d b = arrivals_in o a d b) by (intros o; rewrite arrivals_in_app; simpl; apply app_nil_r).
+    assert (Adrv : forall o st', arrivals_in (o ++ [(c, ODrv s code)] ++ drv_copies cf st' c s) a d b = arrivals_in o a d b) by (intros o st'; rewrite arrivals_in_app, arrivals_drv; apply app_nil_r).
     unfold release_name. change (st_held st1) with (st_held st).
     destruct (held_for (st_held st) n) as [|x0 l0] eqn:El; [cbn [fst snd]; rewrite Adrv; apply Quiet; [reflexivity|apply Sub_refl]|].
     destruct (lookup (st_names st1) n) as [[|ow q]|]; try (cbn [fst snd]; rewrite Adrv; apply Quiet; [reflexivity|apply Sub_refl]).
@@ -334,7 +343,7 @@ Proof.
       * apply N.eqb_eq in En. subst n'. simpl. rewrite app_nil_r. eapply Sub_trans; [|exact IH].
         apply Sub_app; [apply Sub_refl|]. unfold held_msgs. rewrite El. exact RA.
       * rewrite RO; [|simpl; rewrite N.eqb_sym; exact En]. simpl. unfold held_msgs in IH. rewrite ?app_nil_r in *. exact IH.
-  - destruct (release (st_names st) c n). cbn [fst snd]. apply Quiet; [reflexivity|apply Sub_refl].
+  - destruct (release (st_names st) c n). cbn [fst snd]. apply Quiet; [apply arrivals_drv|apply Sub_refl].
 Qed.
 
 (* what b reads from a for destination d is, in order, a subsequence of what a wrote to d *)
